@@ -63,7 +63,11 @@ impl Polytope {
                         "Found optimal point {} with value {} !< {}",
                         &point, val, bound
                     );
-                    if val <= bound + f64::EPSILON {
+                    // the tolerance is relative to the magnitude of the row: a constraint with
+                    // coefficients of order 1e-16 is not redundant just because its value is,
+                    // and a row without coefficients (0 <= bound) is decided exactly
+                    let row_scale = costs.iter().fold(0f64, |acc, x| acc.max(x.abs()));
+                    if val <= bound + f64::EPSILON * row_scale {
                         debug!("Constraint is redundant");
                         redundant.push(idx);
                     }
